@@ -1,1 +1,20 @@
-fn main(){}
+//! mc-crypto: bounded exhaustive enumeration of configurations, boundary inputs and
+//! single-component perturbations for the cryptographic layers of concordium_base
+//! (C06-C08, C11, C12, C18-C20), every case executed on the real code and judged by a
+//! truth predicate / reference computation.
+
+mod c11;
+mod c19;
+mod c20;
+mod util;
+
+fn main() {
+    let cli = mc_core::parse_cli();
+    mc_core::quiet_panics();
+    match cli.property.as_str() {
+        "C11" => c11::run(&cli),
+        "C19" => c19::run(&cli),
+        "C20" => c20::run(&cli),
+        other => mc_core::machinery_error(&format!("mc-crypto does not serve property {other}")),
+    }
+}
